@@ -303,16 +303,17 @@ Proof.
 Qed.
 
 (* ---------- histories: the per-reload theorems hold at every step of every sequence of reloads ---------- *)
-Fixpoint hist_all (P : N -> state -> rstep -> Prop) (born : N) (st : state) (steps : list rstep) : Prop :=
+Fixpoint hist_all (P : N -> state -> rstep -> rarg -> Prop) (born : N) (old : option N) (st : state) (steps : list rstep) : Prop :=
   match steps with
   | [] => True
   | s :: rest =>
-      P born st s /\
-      hist_all P (born + 1)%N (ping (r_st (reload all_off born st (rs_tree s) (rs_cfg s) (rs_arg s)))) rest
+      let a := eff_arg old s in       (* '*' when the global options changed since the previous reload *)
+      P born st s a /\
+      hist_all P (born + 1)%N (next_old born s) (ping (r_st (reload all_off born st (rs_tree s) (rs_cfg s) a))) rest
   end.
 
-Definition step_thms (born : N) (st : state) (s : rstep) : Prop :=
-  let t := rs_tree s in let k := rs_cfg s in let a := rs_arg s in
+Definition step_thms (born : N) (st : state) (s : rstep) (a : rarg) : Prop :=
+  let t := rs_tree s in let k := rs_cfg s in
   let fs := discover t k in
   let pl := plan all_off st fs a in
   let r := reload all_off born st t k a in
@@ -326,19 +327,19 @@ Definition step_thms (born : N) (st : state) (s : rstep) : Prop :=
   /\ ((forall n, a <> RName n) -> forall c', In c' (r_st r) ->
         exists c, (c' = c \/ c' = set_started c) /\ (in_ctx_roots (c_name c) = true -> current_ctx t k born c)).
 
-Theorem history_thms : forall steps born st, uniq_ctx st ->
-  hist_all (fun _ st _ => acyclic st) born st steps -> hist_all step_thms born st steps.
+Theorem history_thms : forall steps born old st, uniq_ctx st ->
+  hist_all (fun _ st _ _ => acyclic st) born old st steps -> hist_all step_thms born old st steps.
 Proof.
-  induction steps as [|s rest IH]; intros born st Hu Hac; cbn [hist_all]; [exact I|].
-  destruct Hac as [Hac Hrest]. split.
+  induction steps as [|s rest IH]; intros born old st Hu Hac; cbn [hist_all]; [exact I|].
+  destruct Hac as [Hac Hrest]. set (a := eff_arg old s) in *. split.
   - unfold step_thms. split; [exact Hu|]. split; [|split].
     + intros Hok.
-      destruct (plan_exact st (discover (rs_tree s) (rs_cfg s)) (rs_arg s) Hac (discover_fresh _ _) (discover_uniq _ _) (ctx_all_uniq st Hu) Hok)
+      destruct (plan_exact st (discover (rs_tree s) (rs_cfg s)) a Hac (discover_fresh _ _) (discover_uniq _ _) (ctx_all_uniq st Hu) Hok)
         as (H1 & H2 & H3 & H4).
       split; [exact H1|]. split; [exact H2|]. split; [exact H3|]. split.
       * intros s'. rewrite load_list_In. split; intros (A & B & C); (split; [exact A|split; [exact B|]]); apply (H4 s' A); exact C.
       * intros s' Hs'. apply reload_reexecutes; assumption.
     + intros c Hc Hr Hs Hd Hf. apply untouched_spec; assumption.
-    + intros Ha c' Hc'. apply (post_state_current born st (rs_tree s) (rs_cfg s) (rs_arg s) Hu Hac Ha). exact Hc'.
-  - apply IH; [|exact Hrest]. apply ping_uniq. apply (reload_origin all_off born st (rs_tree s) (rs_cfg s) (rs_arg s) Hu).
+    + intros Ha c' Hc'. apply (post_state_current born st (rs_tree s) (rs_cfg s) a Hu Hac Ha). exact Hc'.
+  - apply IH; [|exact Hrest]. apply ping_uniq. apply (reload_origin all_off born st (rs_tree s) (rs_cfg s) a Hu).
 Qed.
